@@ -83,6 +83,7 @@ def gen(rng, tier):
              'lam': rng.choice([0, 0, Fraction(1, 2), 2, Fraction(1, 4)]), 'reg_data': rng.random() < 0.5, 'reg_op': rng.random() < 0.3,
              'n_iter': rng.choice([0, 1, 2, 3]) if small else rng.randint(0, 12), 'seed': rng.randrange(10 ** 6), 'mode': mode}
         c['lam'] = [Fraction(c['lam']).numerator, Fraction(c['lam']).denominator]
+        c['data_scale_exp'] = rng.choice([0, 0, -10, -16, -20])   # raw data are often of small absolute magnitude
         c['n_k2'] = 1 if small or rng.random() < 0.6 else rng.choice([2, 3])
         if c['n_k2'] > 1:
             c['enc_y'], c['k1'], c['recon_y'] = min(ny, 4), list(range(min(ny, 4))), min(ny, 4)
@@ -102,6 +103,7 @@ def _setup(c):
     ry, rx = c['recon_y'], c['recon_x']
     n2 = c.get('n_k2', 1)
     y = (g.integers(-3, 4, (no, nc, n2, n1, n0)) + 1j * g.integers(-3, 4, (no, nc, n2, n1, n0))).astype(np.complex64)
+    y = (y * np.float32(2.0 ** c.get('data_scale_exp', 0))).astype(np.complex64)
     kd = _make_kdata(c, torch.from_numpy(y))
     fop = FourierOp.from_kdata(kd)
     csm = None
@@ -154,7 +156,7 @@ def impl(c):
         lam_map.view(-1)[-1] = float(lam)
         lam_t = lam_map
         lam_vec = np.broadcast_to(lam_map.numpy().astype(np.float64), img_shape).reshape(-1)
-    reg_data = torch.from_numpy((g.integers(-2, 3, img_shape) + 1j * g.integers(-2, 3, img_shape)).astype(np.complex64)) if c['reg_data'] else 0.0
+    reg_data = torch.from_numpy(((g.integers(-2, 3, img_shape) + 1j * g.integers(-2, 3, img_shape)) * 2.0 ** c.get('data_scale_exp', 0)).astype(np.complex64)) if c['reg_data'] else 0.0
     reg_op = None
     if c['reg_op']:
         d = torch.from_numpy((g.integers(1, 4, (1, 1, n2, ry, rx))).astype(np.complex64))
@@ -263,9 +265,10 @@ def oracle(c, o):
     H = np.array(o['H'])[..., 0] + 1j * np.array(o['H'])[..., 1]
     b = _v(o['b'])
     tol = 2e-4
+    sc = 2.0 ** c.get('data_scale_exp', 0)   # magnitude of the data: every comparison is relative to it
 
     def rel(a, ref):
-        return float(np.abs(a - ref).max() / max(1.0, np.abs(ref).max()))
+        return float(np.abs(a - ref).max() / max(sc, np.abs(ref).max()))
     if rel(_v(o['direct']), _v(o['direct_ref'])) > tol:
         return f'DirectReconstruction differs from S^H F^H W y (relative {rel(_v(o["direct"]), _v(o["direct_ref"])):.3g})'
     cond = np.linalg.cond(H)
@@ -279,20 +282,66 @@ def oracle(c, o):
             return f'converged RegularizedIterativeSENSE differs from the regularised least-squares image by {rel(_v(o["reg_conv"]), sol):.3g} (cond {cond:.3g})'
     if c['lam'][0] == 0 and rel(_v(o['reg']), _v(o['iter'])) > 1e-6:
         return 'with lambda = 0 the regularised reconstruction differs from IterativeSENSEReconstruction'
-    if o['direct_lin_dev'] > 1e-3:
+    if o['direct_lin_dev'] > 1e-3 * max(sc, np.abs(_v(o['direct_ref'])).max()):
         return f'DirectReconstruction is not linear in the data (deviation {o["direct_lin_dev"]:.3g})'
-    if cond < 1e4 and o['homog_dev'] > 1e-2 * max(1.0, np.abs(it_ref).max()):
+    if cond < 1e4 and o['homog_dev'] > 1e-2 * max(sc, np.abs(it_ref).max()):
         return f'iterative reconstruction is not homogeneous in the data (deviation {o["homog_dev"]:.3g})'
-    if 'consistent_dev' in o and o.get('cond', 1e9) < 1e3 and o['consistent_dev'] > 1e-2:
+    if 'consistent_dev' in o and o.get('cond', 1e9) < 1e3 and o['consistent_dev'] > 1e-2:   # (true image of magnitude ~3)
         return f'consistent fully sampled data do not reproduce the true image (deviation {o["consistent_dev"]:.3g}, cond {o["cond"]:.3g})'
     if 'white_cov_dev' in o and o['white_cov_dev'] > 1e-4:
         return f'prewhitened noise scan does not have unit covariance (deviation {o["white_cov_dev"]:.3g})'
     return None
 
 
-FAMILIES = [Family('reconstructions', gen, impl, None, '', None, oracle, nontrivial=lambda c: c['recon_y'] * c['recon_x'] >= 2,
+# ---- call history: recalculate_fourierop(kdata_b) on an object configured for another acquisition ----------------------
+def gen_recalc(rng, tier):
+    out = []
+    for _ in range(6 if tier == 'quick' else 80):
+        ny = rng.randint(5, 7)
+        lines = list(range(ny))
+        ka = sorted(rng.sample(lines, ny - 2))
+        kb = sorted(rng.sample(lines, ny - 2))
+        while kb == ka:
+            kb = sorted(rng.sample(lines, ny - 2))
+        out.append({'enc_y': ny, 'n_k0': rng.randint(2, 4), 'k1a': ka, 'k1b': kb, 'n_coils': rng.randint(1, 2), 'seed': rng.randrange(10 ** 6),
+                    'cls': rng.choice(['direct', 'iterative'])})
+    return out
+
+
+def impl_recalc(c):
+    from mrpro.algorithms.reconstruction import DirectReconstruction, IterativeSENSEReconstruction
+    g = np.random.default_rng(c['seed'])
+    res = {}
+
+    def mk(k1):
+        cfg = {'n_other': 1, 'n_coils': c['n_coils'], 'k1': k1, 'n_k0': c['n_k0'], 'enc_y': c['enc_y'], 'recon_y': c['enc_y'], 'recon_x': c['n_k0']}
+        d = (g.integers(-3, 4, (1, c['n_coils'], 1, len(k1), c['n_k0'])) + 1j * g.integers(-3, 4, (1, c['n_coils'], 1, len(k1), c['n_k0']))).astype(np.complex64)
+        return _make_kdata(cfg, torch.from_numpy(d))
+    kda, kdb = mk(c['k1a']), mk(c['k1b'])
+    cls = DirectReconstruction if c['cls'] == 'direct' else IterativeSENSEReconstruction
+    kw = {} if c['cls'] == 'direct' else {'n_iterations': 3}
+    rec = cls(kdata=kda, csm=None, **kw)           # Fourier operator and Voronoi dcf of acquisition a
+    rec.recalculate_fourierop(kdb)                   # ... now of acquisition b
+    fresh = cls(kdata=kdb, csm=None, **kw)
+    a, b = rec(kdb).data, fresh(kdb).data
+    res['dev'] = float((a - b).abs().max() / max(1.0, float(b.abs().max())))
+    res['dcf_changed'] = bool((fresh.dcf.data.flatten() != cls(kdata=kda, csm=None, **kw).dcf.data.flatten()).any()) if fresh.dcf.data.numel() == cls(kdata=kda, csm=None, **kw).dcf.data.numel() else True
+    return res
+
+
+def oracle_recalc(c, o):
+    if 'raises' in o:
+        return f'recalculate_fourierop history raised {o}'
+    if o['dev'] > 1e-4:
+        return (f'{c["cls"]} reconstruction after recalculate_fourierop(kdata_b) differs from a reconstruction configured for kdata_b '
+                f'(relative {o["dev"]:.3g}): it does not use the operators of the acquisition it reconstructs')
+    return None
+
+
+FAMILIES = [Family('recalculate_history', gen_recalc, impl_recalc, None, '', None, oracle_recalc, theorem='C07_direct (W, F, S are those of the reconstructed acquisition)'),
+            Family('reconstructions', gen, impl, None, '', None, oracle, nontrivial=lambda c: c['recon_y'] * c['recon_x'] >= 2,
                    descr=lambda c: {k: v for k, v in c.items() if isinstance(v, (bool, int, str))},
-                   theorem='C07_direct, C07_sense_is_cg, C07_lambda_zero, C07_converged_solves')]
+                   theorem='C07_direct, C07_sense_is_cg, C07_lambda_zero, C07_converged_solves')][::-1]
 
 
 # ------------------------------------------------------------------------------------------------
@@ -313,8 +362,9 @@ def extra_checks(ctx):
         n = H.shape[0]
         if n > 8 or np.linalg.cond(H) > 1e3:
             continue
+        sc = 2.0 ** c.get('data_scale_exp', 0)
         Hr = np.block([[H.real, -H.imag], [H.imag, H.real]])
-        br = np.concatenate([b.real, b.imag])
+        br = np.concatenate([b.real, b.imag]) / sc   # CG is homogeneous in the data: solve for the data divided by their magnitude
 
         def q(x):
             return qlit(Fraction(round(float(x) * 2 ** 24), 2 ** 24))
@@ -338,9 +388,10 @@ def extra_checks(ctx):
             continue
         xs = np.array([float(Fraction(a, b2)) for a, b2 in x])
         n = len(xs) // 2
-        xm = xs[:n] + 1j * xs[n:]
+        sc = 2.0 ** c.get('data_scale_exp', 0)
+        xm = (xs[:n] + 1j * xs[n:]) * sc
         got = _v(o['reg'])
-        dev = np.abs(got - xm).max() / max(1.0, np.abs(xm).max())
+        dev = np.abs(got - xm).max() / max(sc, np.abs(xm).max())
         if dev > 4e-3:
             ctx.problem('correspondence', 'recon_vs_coq', c, f'RegularizedIterativeSENSE differs from the Coq CG model on the same system: relative {dev:.3g}',
                         expected=[[v.real, v.imag] for v in xm.tolist()], got=o['reg'])
